@@ -36,6 +36,8 @@ pub fn dispatch(p: &[String]) -> String {
             generated::from_str(&p[1], &String::from_utf8_lossy(&bytes))
         }
         "from_bits" => generated::from_bits(&p[1], p[2].parse::<u32>().unwrap()),
+        "operand_params" => generated::operand_params(&p[1], p[2].parse::<u32>().unwrap_or(0)),
+        "operand_requires" => generated::operand_requires(&p[1], p[2].parse::<u32>().unwrap_or(0)),
         "scenario" => {
             let raw = unhex(if p.len() > 2 { &p[2] } else { "" });
             match vscen::run(&p[1], &raw) {
